@@ -226,7 +226,7 @@ def rand_source(rng):
         qs = (1, 2, 5, 10) if dec else (1, 2, 4)
         a = F(rng.randrange(-50, 51), rng.choice(qs))
         step = F(rng.randrange(1, 9), rng.choice(qs))
-        cnt = rng.randrange(1, 12)
+        cnt = rng.choice([rng.randrange(1, 12), rng.randrange(12, 60), rng.randrange(60, 320)])   # few .. a few hundred steps
         extra = step * F(rng.randrange(0, 2), 2)    # b = a + cnt * step (+ half a step)
         bb = a + cnt * step + extra
         if 1000 % bb.denominator or 1000 % a.denominator or 1000 % step.denominator:
@@ -267,7 +267,12 @@ def rand_source(rng):
         return {"kind": k, "via": rng.choice(["values", "desc"]), "vals": vals}
     if k == "text":
         return {"kind": k, "via": "string", "vals": vals}
-    return {"kind": k, "via": k, "vals": vals}
+    src = {"kind": k, "via": k, "vals": vals}
+    if rng.random() < 0.4:      # the used size ends inside the last segment
+        nd = rng.randrange(2, 8)
+        n = rng.randrange(10 ** (nd - 1), 10 ** nd)
+        src["tail"] = [n, nd, rng.randrange(1, nd)]
+    return src
 
 
 def random_calls(rng, textlike, n, consumable=True):
